@@ -9,6 +9,8 @@ Local Open Scope Z_scope.
 (** legal width for [number_splitter<Int>::cut]: [is_correct(count)] and at least one bit *)
 Definition legal (w c : Z) : Prop := 1 <= c < w.
 Definition anypos (s : Z) : Prop := True.
+(** counts accepted by [safe_cut]: any positive [unsigned] *)
+Definition legal_safe (c : Z) : Prop := 1 <= c < 2 ^ 32.
 
 (** ** The eight instantiations (statements and proofs generated per type by the same tactic) *)
 
@@ -74,23 +76,40 @@ Proof.
   rewrite (cast_small i16) by (cbn [ibits i16]; try lia; apply (field_small 16 n s c 16); lia). reflexivity.
 Qed.
 
-Lemma ns_i16_safe_cut_spec n s c : ok_i16 n -> 0 <= s <= 16 -> 1 <= c < 16 ->
+Lemma ns_i16_safe_cut_spec n s c : ok_i16 n -> 0 <= s <= 16 -> legal_safe c -> 0 < s \/ c < 16 ->
   ns_i16_safe_cut (mk_ns_i16 n s) c = Some (field 16 n s (Z.min c (16 - s)), mk_ns_i16 n (s + Z.min c (16 - s))).
 Proof.
-  intros Hn Hs Hc. unfold ns_i16_safe_cut, ns_i16_eos, ns_i16_rest_count. cbn [ns_i16_number_ ns_i16_shift_ obind].
-  change (umul u64 2 8) with 16. unfold c_ge, c_lt.
+  unfold legal_safe. intros Hn Hs Hc Hfw. unfold ns_i16_safe_cut, ns_i16_eos, ns_i16_rest_count. cbn [ns_i16_number_ ns_i16_shift_ obind].
+  change (umul u64 2 8) with 16. unfold c_ge, c_lt, c_eq.
   destruct (Z.leb_spec 16 s).
   - replace (Z.min c (16 - s)) with 0 by lia. rewrite field_0, Z.add_0_r. reflexivity.
   - unfold usub. cbn [ibits u64]. assert (H64 : 16 < 2 ^ 64) by reflexivity. assert (H32 : 16 < 2 ^ 32) by reflexivity.
     rewrite (Z.mod_small (16 - s)) by lia. rewrite cast_u32, Z.mod_small by lia.
     destruct (Z.ltb_spec (16 - s) c); cbn [obind].
     + replace (Z.min c (16 - s)) with (16 - s) by lia.
+      replace (16 - s =? 16) with false by (symmetry; apply Z.eqb_neq; lia).
       replace (to_bool (16 - s)) with true by (symmetry; apply to_bool_spec; lia).
       rewrite ns_i16_cut_spec by (auto; lia). cbn [obind ns_i16_number_ ns_i16_shift_]. rewrite (cast_small i16) by (cbn [ibits i16]; try lia; apply (field_small 16 n s (16 - s) 16); lia). reflexivity.
     + replace (Z.min c (16 - s)) with c by lia.
+      replace (c =? 16) with false by (symmetry; apply Z.eqb_neq; lia).
       replace (to_bool c) with true by (symmetry; apply to_bool_spec; lia).
       rewrite ns_i16_cut_spec by (auto; lia). cbn [obind ns_i16_number_ ns_i16_shift_]. rewrite (cast_small i16) by (cbn [ibits i16]; try lia; apply (field_small 16 n s c 16); lia). reflexivity.
 Qed.
+
+(** commit 096bd5f: when all the bits of a fresh splitter are requested, safe_cut returns the number itself and
+    reaches end-of-stream (before the fix this called cut(width): a shift by the full width, undefined) *)
+Lemma ns_i16_safe_cut_full n c : ok_i16 n -> legal_safe c -> 16 <= c ->
+  ns_i16_safe_cut (mk_ns_i16 n 0) c = Some (n, mk_ns_i16 n 16).
+Proof.
+  unfold legal_safe. intros Hn Hc Hw. unfold ns_i16_safe_cut, ns_i16_eos, ns_i16_rest_count. cbn [ns_i16_number_ ns_i16_shift_ obind].
+  change (umul u64 2 8) with 16. unfold c_ge, c_lt, c_eq. change (16 <=? 0) with false. cbv iota.
+  change (cast u32 (usub u64 16 0)) with 16.
+  destruct (Z.ltb_spec 16 c); cbn [obind]; [reflexivity|].
+  assert (c = 16) by lia. subst c. reflexivity.
+Qed.
+
+Lemma ns_i16_eos_at_end n : ns_i16_eos (mk_ns_i16 n 16) = Some true.
+Proof. reflexivity. Qed.
 
 Theorem ns_i16_cut_sequence n cs : ok_i16 n -> Forall (legal 16) cs -> zsum cs = 16 ->
   exists vs, run (ns_i16) ns_i16_cut (mk_ns_i16 n 0) cs = Some (vs, mk_ns_i16 n 16) /\ length vs = length cs /\
@@ -100,12 +119,16 @@ Proof.
   intros n0 s c Hn0 _ Hs0 Hc Hsc. apply ns_i16_cut_spec; auto.
 Qed.
 
-Theorem ns_i16_safe_cut_sequence n cs : ok_i16 n -> Forall (legal 16) cs -> 16 <= zsum cs ->
+Theorem ns_i16_safe_cut_sequence n cs : ok_i16 n -> Forall legal_safe cs -> 16 <= zsum cs ->
   exists vs, run (ns_i16) ns_i16_safe_cut (mk_ns_i16 n 0) cs = Some (vs, mk_ns_i16 n 16) /\ length vs = length cs /\
-             joinf (combine vs (clip 16 0 cs)) = n mod 2 ^ 16.
+             joinf (combine vs (clip 16 0 cs)) mod 2 ^ 16 = n mod 2 ^ 16.
 Proof.
-  intros Hn Hl Hs. apply (safe_cut_sequence_reconstructs_gen ns_i16 16 mk_ns_i16 ok_i16 (legal 16) anypos ns_i16_safe_cut); auto; try exact I; unfold legal; try lia.
-  intros n0 s c Hn0 _ Hs0 Hc. apply ns_i16_safe_cut_spec; auto.
+  intros Hn Hl Hs.
+  destruct (safe_cut_sequence_reconstructs_gen ns_i16 16 mk_ns_i16 ok_i16 anypos ns_i16_safe_cut ltac:(lia) legal_safe (fun n => n))
+    with (n := n) (cs := cs) as [vs [E [L J]]]; auto; try exact I; unfold legal_safe; try lia.
+  - intros n0 s c Hn0 _ Hs0 Hc Hfw. apply ns_i16_safe_cut_spec; auto.
+  - intros n0 c Hn0 _ Hc Hw. apply ns_i16_safe_cut_full; auto.
+  - exists vs. split; [exact E|]. split; [exact L|]. destruct J as [J|J]; rewrite J; [apply Z.mod_mod; lia|reflexivity].
 Qed.
 
 Definition ok_u16 (n : Z) : Prop := 0 <= n < 2 ^ 16.
@@ -119,23 +142,40 @@ Proof.
   rewrite cast_u16, Z.mod_small by (pose proof (field_small 16 n s c 17 ltac:(lia)); cbn in *; lia). reflexivity.
 Qed.
 
-Lemma ns_u16_safe_cut_spec n s c : ok_u16 n -> 0 <= s <= 16 -> 1 <= c < 16 ->
+Lemma ns_u16_safe_cut_spec n s c : ok_u16 n -> 0 <= s <= 16 -> legal_safe c -> 0 < s \/ c < 16 ->
   ns_u16_safe_cut (mk_ns_u16 n s) c = Some (field 16 n s (Z.min c (16 - s)), mk_ns_u16 n (s + Z.min c (16 - s))).
 Proof.
-  intros Hn Hs Hc. unfold ns_u16_safe_cut, ns_u16_eos, ns_u16_rest_count. cbn [ns_u16_number_ ns_u16_shift_ obind].
-  change (umul u64 2 8) with 16. unfold c_ge, c_lt.
+  unfold legal_safe. intros Hn Hs Hc Hfw. unfold ns_u16_safe_cut, ns_u16_eos, ns_u16_rest_count. cbn [ns_u16_number_ ns_u16_shift_ obind].
+  change (umul u64 2 8) with 16. unfold c_ge, c_lt, c_eq.
   destruct (Z.leb_spec 16 s).
   - replace (Z.min c (16 - s)) with 0 by lia. rewrite field_0, Z.add_0_r. reflexivity.
   - unfold usub. cbn [ibits u64]. assert (H64 : 16 < 2 ^ 64) by reflexivity. assert (H32 : 16 < 2 ^ 32) by reflexivity.
     rewrite (Z.mod_small (16 - s)) by lia. rewrite cast_u32, Z.mod_small by lia.
     destruct (Z.ltb_spec (16 - s) c); cbn [obind].
     + replace (Z.min c (16 - s)) with (16 - s) by lia.
+      replace (16 - s =? 16) with false by (symmetry; apply Z.eqb_neq; lia).
       replace (to_bool (16 - s)) with true by (symmetry; apply to_bool_spec; lia).
       rewrite ns_u16_cut_spec by (auto; lia). cbn [obind ns_u16_number_ ns_u16_shift_]. rewrite cast_u16, Z.mod_small by (pose proof (field_small 16 n s (16 - s) 17 ltac:(lia)); cbn in *; lia). reflexivity.
     + replace (Z.min c (16 - s)) with c by lia.
+      replace (c =? 16) with false by (symmetry; apply Z.eqb_neq; lia).
       replace (to_bool c) with true by (symmetry; apply to_bool_spec; lia).
       rewrite ns_u16_cut_spec by (auto; lia). cbn [obind ns_u16_number_ ns_u16_shift_]. rewrite cast_u16, Z.mod_small by (pose proof (field_small 16 n s c 17 ltac:(lia)); cbn in *; lia). reflexivity.
 Qed.
+
+(** commit 096bd5f: when all the bits of a fresh splitter are requested, safe_cut returns the number itself and
+    reaches end-of-stream (before the fix this called cut(width): a shift by the full width, undefined) *)
+Lemma ns_u16_safe_cut_full n c : ok_u16 n -> legal_safe c -> 16 <= c ->
+  ns_u16_safe_cut (mk_ns_u16 n 0) c = Some (n, mk_ns_u16 n 16).
+Proof.
+  unfold legal_safe. intros Hn Hc Hw. unfold ns_u16_safe_cut, ns_u16_eos, ns_u16_rest_count. cbn [ns_u16_number_ ns_u16_shift_ obind].
+  change (umul u64 2 8) with 16. unfold c_ge, c_lt, c_eq. change (16 <=? 0) with false. cbv iota.
+  change (cast u32 (usub u64 16 0)) with 16.
+  destruct (Z.ltb_spec 16 c); cbn [obind]; [reflexivity|].
+  assert (c = 16) by lia. subst c. reflexivity.
+Qed.
+
+Lemma ns_u16_eos_at_end n : ns_u16_eos (mk_ns_u16 n 16) = Some true.
+Proof. reflexivity. Qed.
 
 Theorem ns_u16_cut_sequence n cs : ok_u16 n -> Forall (legal 16) cs -> zsum cs = 16 ->
   exists vs, run (ns_u16) ns_u16_cut (mk_ns_u16 n 0) cs = Some (vs, mk_ns_u16 n 16) /\ length vs = length cs /\
@@ -145,12 +185,16 @@ Proof.
   intros n0 s c Hn0 _ Hs0 Hc Hsc. apply ns_u16_cut_spec; auto.
 Qed.
 
-Theorem ns_u16_safe_cut_sequence n cs : ok_u16 n -> Forall (legal 16) cs -> 16 <= zsum cs ->
+Theorem ns_u16_safe_cut_sequence n cs : ok_u16 n -> Forall legal_safe cs -> 16 <= zsum cs ->
   exists vs, run (ns_u16) ns_u16_safe_cut (mk_ns_u16 n 0) cs = Some (vs, mk_ns_u16 n 16) /\ length vs = length cs /\
              joinf (combine vs (clip 16 0 cs)) = n mod 2 ^ 16.
 Proof.
-  intros Hn Hl Hs. apply (safe_cut_sequence_reconstructs_gen ns_u16 16 mk_ns_u16 ok_u16 (legal 16) anypos ns_u16_safe_cut); auto; try exact I; unfold legal; try lia.
-  intros n0 s c Hn0 _ Hs0 Hc. apply ns_u16_safe_cut_spec; auto.
+  intros Hn Hl Hs.
+  destruct (safe_cut_sequence_reconstructs_gen ns_u16 16 mk_ns_u16 ok_u16 anypos ns_u16_safe_cut ltac:(lia) legal_safe (fun n => n))
+    with (n := n) (cs := cs) as [vs [E [L J]]]; auto; try exact I; unfold legal_safe; try lia.
+  - intros n0 s c Hn0 _ Hs0 Hc Hfw. apply ns_u16_safe_cut_spec; auto.
+  - intros n0 c Hn0 _ Hc Hw. apply ns_u16_safe_cut_full; auto.
+  - exists vs. split; [exact E|]. split; [exact L|]. destruct J as [J|J]; rewrite J; [reflexivity|]. unfold ok_u16 in Hn. symmetry. apply Z.mod_small. lia.
 Qed.
 
 Definition ok_i32 (n : Z) : Prop := - 2 ^ 31 <= n < 2 ^ 31.
@@ -164,23 +208,40 @@ Proof.
   rewrite (cast_small i32) by (cbn [ibits i32]; try lia; apply (field_small 32 n s c 32); lia). reflexivity.
 Qed.
 
-Lemma ns_i32_safe_cut_spec n s c : ok_i32 n -> 0 <= s <= 32 -> 1 <= c < 32 ->
+Lemma ns_i32_safe_cut_spec n s c : ok_i32 n -> 0 <= s <= 32 -> legal_safe c -> 0 < s \/ c < 32 ->
   ns_i32_safe_cut (mk_ns_i32 n s) c = Some (field 32 n s (Z.min c (32 - s)), mk_ns_i32 n (s + Z.min c (32 - s))).
 Proof.
-  intros Hn Hs Hc. unfold ns_i32_safe_cut, ns_i32_eos, ns_i32_rest_count. cbn [ns_i32_number_ ns_i32_shift_ obind].
-  change (umul u64 4 8) with 32. unfold c_ge, c_lt.
+  unfold legal_safe. intros Hn Hs Hc Hfw. unfold ns_i32_safe_cut, ns_i32_eos, ns_i32_rest_count. cbn [ns_i32_number_ ns_i32_shift_ obind].
+  change (umul u64 4 8) with 32. unfold c_ge, c_lt, c_eq.
   destruct (Z.leb_spec 32 s).
   - replace (Z.min c (32 - s)) with 0 by lia. rewrite field_0, Z.add_0_r. reflexivity.
   - unfold usub. cbn [ibits u64]. assert (H64 : 32 < 2 ^ 64) by reflexivity. assert (H32 : 32 < 2 ^ 32) by reflexivity.
     rewrite (Z.mod_small (32 - s)) by lia. rewrite cast_u32, Z.mod_small by lia.
     destruct (Z.ltb_spec (32 - s) c); cbn [obind].
     + replace (Z.min c (32 - s)) with (32 - s) by lia.
+      replace (32 - s =? 32) with false by (symmetry; apply Z.eqb_neq; lia).
       replace (to_bool (32 - s)) with true by (symmetry; apply to_bool_spec; lia).
       rewrite ns_i32_cut_spec by (auto; lia). cbn [obind ns_i32_number_ ns_i32_shift_].  reflexivity.
     + replace (Z.min c (32 - s)) with c by lia.
+      replace (c =? 32) with false by (symmetry; apply Z.eqb_neq; lia).
       replace (to_bool c) with true by (symmetry; apply to_bool_spec; lia).
       rewrite ns_i32_cut_spec by (auto; lia). cbn [obind ns_i32_number_ ns_i32_shift_].  reflexivity.
 Qed.
+
+(** commit 096bd5f: when all the bits of a fresh splitter are requested, safe_cut returns the number itself and
+    reaches end-of-stream (before the fix this called cut(width): a shift by the full width, undefined) *)
+Lemma ns_i32_safe_cut_full n c : ok_i32 n -> legal_safe c -> 32 <= c ->
+  ns_i32_safe_cut (mk_ns_i32 n 0) c = Some (n, mk_ns_i32 n 32).
+Proof.
+  unfold legal_safe. intros Hn Hc Hw. unfold ns_i32_safe_cut, ns_i32_eos, ns_i32_rest_count. cbn [ns_i32_number_ ns_i32_shift_ obind].
+  change (umul u64 4 8) with 32. unfold c_ge, c_lt, c_eq. change (32 <=? 0) with false. cbv iota.
+  change (cast u32 (usub u64 32 0)) with 32.
+  destruct (Z.ltb_spec 32 c); cbn [obind]; [reflexivity|].
+  assert (c = 32) by lia. subst c. reflexivity.
+Qed.
+
+Lemma ns_i32_eos_at_end n : ns_i32_eos (mk_ns_i32 n 32) = Some true.
+Proof. reflexivity. Qed.
 
 Theorem ns_i32_cut_sequence n cs : ok_i32 n -> Forall (legal 32) cs -> zsum cs = 32 ->
   exists vs, run (ns_i32) ns_i32_cut (mk_ns_i32 n 0) cs = Some (vs, mk_ns_i32 n 32) /\ length vs = length cs /\
@@ -190,12 +251,16 @@ Proof.
   intros n0 s c Hn0 _ Hs0 Hc Hsc. apply ns_i32_cut_spec; auto.
 Qed.
 
-Theorem ns_i32_safe_cut_sequence n cs : ok_i32 n -> Forall (legal 32) cs -> 32 <= zsum cs ->
+Theorem ns_i32_safe_cut_sequence n cs : ok_i32 n -> Forall legal_safe cs -> 32 <= zsum cs ->
   exists vs, run (ns_i32) ns_i32_safe_cut (mk_ns_i32 n 0) cs = Some (vs, mk_ns_i32 n 32) /\ length vs = length cs /\
-             joinf (combine vs (clip 32 0 cs)) = n mod 2 ^ 32.
+             joinf (combine vs (clip 32 0 cs)) mod 2 ^ 32 = n mod 2 ^ 32.
 Proof.
-  intros Hn Hl Hs. apply (safe_cut_sequence_reconstructs_gen ns_i32 32 mk_ns_i32 ok_i32 (legal 32) anypos ns_i32_safe_cut); auto; try exact I; unfold legal; try lia.
-  intros n0 s c Hn0 _ Hs0 Hc. apply ns_i32_safe_cut_spec; auto.
+  intros Hn Hl Hs.
+  destruct (safe_cut_sequence_reconstructs_gen ns_i32 32 mk_ns_i32 ok_i32 anypos ns_i32_safe_cut ltac:(lia) legal_safe (fun n => n))
+    with (n := n) (cs := cs) as [vs [E [L J]]]; auto; try exact I; unfold legal_safe; try lia.
+  - intros n0 s c Hn0 _ Hs0 Hc Hfw. apply ns_i32_safe_cut_spec; auto.
+  - intros n0 c Hn0 _ Hc Hw. apply ns_i32_safe_cut_full; auto.
+  - exists vs. split; [exact E|]. split; [exact L|]. destruct J as [J|J]; rewrite J; [apply Z.mod_mod; lia|reflexivity].
 Qed.
 
 Definition ok_u32 (n : Z) : Prop := 0 <= n < 2 ^ 32.
@@ -208,23 +273,40 @@ Proof.
   rewrite (field_of_shiftr 32) by lia. reflexivity.
 Qed.
 
-Lemma ns_u32_safe_cut_spec n s c : ok_u32 n -> 0 <= s <= 32 -> 1 <= c < 32 ->
+Lemma ns_u32_safe_cut_spec n s c : ok_u32 n -> 0 <= s <= 32 -> legal_safe c -> 0 < s \/ c < 32 ->
   ns_u32_safe_cut (mk_ns_u32 n s) c = Some (field 32 n s (Z.min c (32 - s)), mk_ns_u32 n (s + Z.min c (32 - s))).
 Proof.
-  intros Hn Hs Hc. unfold ns_u32_safe_cut, ns_u32_eos, ns_u32_rest_count. cbn [ns_u32_number_ ns_u32_shift_ obind].
-  change (umul u64 4 8) with 32. unfold c_ge, c_lt.
+  unfold legal_safe. intros Hn Hs Hc Hfw. unfold ns_u32_safe_cut, ns_u32_eos, ns_u32_rest_count. cbn [ns_u32_number_ ns_u32_shift_ obind].
+  change (umul u64 4 8) with 32. unfold c_ge, c_lt, c_eq.
   destruct (Z.leb_spec 32 s).
   - replace (Z.min c (32 - s)) with 0 by lia. rewrite field_0, Z.add_0_r. reflexivity.
   - unfold usub. cbn [ibits u64]. assert (H64 : 32 < 2 ^ 64) by reflexivity. assert (H32 : 32 < 2 ^ 32) by reflexivity.
     rewrite (Z.mod_small (32 - s)) by lia. rewrite cast_u32, Z.mod_small by lia.
     destruct (Z.ltb_spec (32 - s) c); cbn [obind].
     + replace (Z.min c (32 - s)) with (32 - s) by lia.
+      replace (32 - s =? 32) with false by (symmetry; apply Z.eqb_neq; lia).
       replace (to_bool (32 - s)) with true by (symmetry; apply to_bool_spec; lia).
       rewrite ns_u32_cut_spec by (auto; lia). cbn [obind ns_u32_number_ ns_u32_shift_].  reflexivity.
     + replace (Z.min c (32 - s)) with c by lia.
+      replace (c =? 32) with false by (symmetry; apply Z.eqb_neq; lia).
       replace (to_bool c) with true by (symmetry; apply to_bool_spec; lia).
       rewrite ns_u32_cut_spec by (auto; lia). cbn [obind ns_u32_number_ ns_u32_shift_].  reflexivity.
 Qed.
+
+(** commit 096bd5f: when all the bits of a fresh splitter are requested, safe_cut returns the number itself and
+    reaches end-of-stream (before the fix this called cut(width): a shift by the full width, undefined) *)
+Lemma ns_u32_safe_cut_full n c : ok_u32 n -> legal_safe c -> 32 <= c ->
+  ns_u32_safe_cut (mk_ns_u32 n 0) c = Some (n, mk_ns_u32 n 32).
+Proof.
+  unfold legal_safe. intros Hn Hc Hw. unfold ns_u32_safe_cut, ns_u32_eos, ns_u32_rest_count. cbn [ns_u32_number_ ns_u32_shift_ obind].
+  change (umul u64 4 8) with 32. unfold c_ge, c_lt, c_eq. change (32 <=? 0) with false. cbv iota.
+  change (cast u32 (usub u64 32 0)) with 32.
+  destruct (Z.ltb_spec 32 c); cbn [obind]; [reflexivity|].
+  assert (c = 32) by lia. subst c. reflexivity.
+Qed.
+
+Lemma ns_u32_eos_at_end n : ns_u32_eos (mk_ns_u32 n 32) = Some true.
+Proof. reflexivity. Qed.
 
 Theorem ns_u32_cut_sequence n cs : ok_u32 n -> Forall (legal 32) cs -> zsum cs = 32 ->
   exists vs, run (ns_u32) ns_u32_cut (mk_ns_u32 n 0) cs = Some (vs, mk_ns_u32 n 32) /\ length vs = length cs /\
@@ -234,12 +316,16 @@ Proof.
   intros n0 s c Hn0 _ Hs0 Hc Hsc. apply ns_u32_cut_spec; auto.
 Qed.
 
-Theorem ns_u32_safe_cut_sequence n cs : ok_u32 n -> Forall (legal 32) cs -> 32 <= zsum cs ->
+Theorem ns_u32_safe_cut_sequence n cs : ok_u32 n -> Forall legal_safe cs -> 32 <= zsum cs ->
   exists vs, run (ns_u32) ns_u32_safe_cut (mk_ns_u32 n 0) cs = Some (vs, mk_ns_u32 n 32) /\ length vs = length cs /\
              joinf (combine vs (clip 32 0 cs)) = n mod 2 ^ 32.
 Proof.
-  intros Hn Hl Hs. apply (safe_cut_sequence_reconstructs_gen ns_u32 32 mk_ns_u32 ok_u32 (legal 32) anypos ns_u32_safe_cut); auto; try exact I; unfold legal; try lia.
-  intros n0 s c Hn0 _ Hs0 Hc. apply ns_u32_safe_cut_spec; auto.
+  intros Hn Hl Hs.
+  destruct (safe_cut_sequence_reconstructs_gen ns_u32 32 mk_ns_u32 ok_u32 anypos ns_u32_safe_cut ltac:(lia) legal_safe (fun n => n))
+    with (n := n) (cs := cs) as [vs [E [L J]]]; auto; try exact I; unfold legal_safe; try lia.
+  - intros n0 s c Hn0 _ Hs0 Hc Hfw. apply ns_u32_safe_cut_spec; auto.
+  - intros n0 c Hn0 _ Hc Hw. apply ns_u32_safe_cut_full; auto.
+  - exists vs. split; [exact E|]. split; [exact L|]. destruct J as [J|J]; rewrite J; [reflexivity|]. unfold ok_u32 in Hn. symmetry. apply Z.mod_small. lia.
 Qed.
 
 Definition ok_i64 (n : Z) : Prop := - 2 ^ 63 <= n < 2 ^ 63.
@@ -253,23 +339,40 @@ Proof.
   rewrite (cast_small i64) by (cbn [ibits i64]; try lia; apply (field_small 64 n s c 64); lia). reflexivity.
 Qed.
 
-Lemma ns_i64_safe_cut_spec n s c : ok_i64 n -> 0 <= s <= 64 -> 1 <= c < 64 ->
+Lemma ns_i64_safe_cut_spec n s c : ok_i64 n -> 0 <= s <= 64 -> legal_safe c -> 0 < s \/ c < 64 ->
   ns_i64_safe_cut (mk_ns_i64 n s) c = Some (field 64 n s (Z.min c (64 - s)), mk_ns_i64 n (s + Z.min c (64 - s))).
 Proof.
-  intros Hn Hs Hc. unfold ns_i64_safe_cut, ns_i64_eos, ns_i64_rest_count. cbn [ns_i64_number_ ns_i64_shift_ obind].
-  change (umul u64 8 8) with 64. unfold c_ge, c_lt.
+  unfold legal_safe. intros Hn Hs Hc Hfw. unfold ns_i64_safe_cut, ns_i64_eos, ns_i64_rest_count. cbn [ns_i64_number_ ns_i64_shift_ obind].
+  change (umul u64 8 8) with 64. unfold c_ge, c_lt, c_eq.
   destruct (Z.leb_spec 64 s).
   - replace (Z.min c (64 - s)) with 0 by lia. rewrite field_0, Z.add_0_r. reflexivity.
   - unfold usub. cbn [ibits u64]. assert (H64 : 64 < 2 ^ 64) by reflexivity. assert (H32 : 64 < 2 ^ 32) by reflexivity.
     rewrite (Z.mod_small (64 - s)) by lia. rewrite cast_u32, Z.mod_small by lia.
     destruct (Z.ltb_spec (64 - s) c); cbn [obind].
     + replace (Z.min c (64 - s)) with (64 - s) by lia.
+      replace (64 - s =? 64) with false by (symmetry; apply Z.eqb_neq; lia).
       replace (to_bool (64 - s)) with true by (symmetry; apply to_bool_spec; lia).
       rewrite ns_i64_cut_spec by (auto; lia). cbn [obind ns_i64_number_ ns_i64_shift_].  reflexivity.
     + replace (Z.min c (64 - s)) with c by lia.
+      replace (c =? 64) with false by (symmetry; apply Z.eqb_neq; lia).
       replace (to_bool c) with true by (symmetry; apply to_bool_spec; lia).
       rewrite ns_i64_cut_spec by (auto; lia). cbn [obind ns_i64_number_ ns_i64_shift_].  reflexivity.
 Qed.
+
+(** commit 096bd5f: when all the bits of a fresh splitter are requested, safe_cut returns the number itself and
+    reaches end-of-stream (before the fix this called cut(width): a shift by the full width, undefined) *)
+Lemma ns_i64_safe_cut_full n c : ok_i64 n -> legal_safe c -> 64 <= c ->
+  ns_i64_safe_cut (mk_ns_i64 n 0) c = Some (n, mk_ns_i64 n 64).
+Proof.
+  unfold legal_safe. intros Hn Hc Hw. unfold ns_i64_safe_cut, ns_i64_eos, ns_i64_rest_count. cbn [ns_i64_number_ ns_i64_shift_ obind].
+  change (umul u64 8 8) with 64. unfold c_ge, c_lt, c_eq. change (64 <=? 0) with false. cbv iota.
+  change (cast u32 (usub u64 64 0)) with 64.
+  destruct (Z.ltb_spec 64 c); cbn [obind]; [reflexivity|].
+  assert (c = 64) by lia. subst c. reflexivity.
+Qed.
+
+Lemma ns_i64_eos_at_end n : ns_i64_eos (mk_ns_i64 n 64) = Some true.
+Proof. reflexivity. Qed.
 
 Theorem ns_i64_cut_sequence n cs : ok_i64 n -> Forall (legal 64) cs -> zsum cs = 64 ->
   exists vs, run (ns_i64) ns_i64_cut (mk_ns_i64 n 0) cs = Some (vs, mk_ns_i64 n 64) /\ length vs = length cs /\
@@ -279,12 +382,16 @@ Proof.
   intros n0 s c Hn0 _ Hs0 Hc Hsc. apply ns_i64_cut_spec; auto.
 Qed.
 
-Theorem ns_i64_safe_cut_sequence n cs : ok_i64 n -> Forall (legal 64) cs -> 64 <= zsum cs ->
+Theorem ns_i64_safe_cut_sequence n cs : ok_i64 n -> Forall legal_safe cs -> 64 <= zsum cs ->
   exists vs, run (ns_i64) ns_i64_safe_cut (mk_ns_i64 n 0) cs = Some (vs, mk_ns_i64 n 64) /\ length vs = length cs /\
-             joinf (combine vs (clip 64 0 cs)) = n mod 2 ^ 64.
+             joinf (combine vs (clip 64 0 cs)) mod 2 ^ 64 = n mod 2 ^ 64.
 Proof.
-  intros Hn Hl Hs. apply (safe_cut_sequence_reconstructs_gen ns_i64 64 mk_ns_i64 ok_i64 (legal 64) anypos ns_i64_safe_cut); auto; try exact I; unfold legal; try lia.
-  intros n0 s c Hn0 _ Hs0 Hc. apply ns_i64_safe_cut_spec; auto.
+  intros Hn Hl Hs.
+  destruct (safe_cut_sequence_reconstructs_gen ns_i64 64 mk_ns_i64 ok_i64 anypos ns_i64_safe_cut ltac:(lia) legal_safe (fun n => n))
+    with (n := n) (cs := cs) as [vs [E [L J]]]; auto; try exact I; unfold legal_safe; try lia.
+  - intros n0 s c Hn0 _ Hs0 Hc Hfw. apply ns_i64_safe_cut_spec; auto.
+  - intros n0 c Hn0 _ Hc Hw. apply ns_i64_safe_cut_full; auto.
+  - exists vs. split; [exact E|]. split; [exact L|]. destruct J as [J|J]; rewrite J; [apply Z.mod_mod; lia|reflexivity].
 Qed.
 
 Definition ok_u64 (n : Z) : Prop := 0 <= n < 2 ^ 64.
@@ -297,23 +404,40 @@ Proof.
   rewrite (field_of_shiftr 64) by lia. reflexivity.
 Qed.
 
-Lemma ns_u64_safe_cut_spec n s c : ok_u64 n -> 0 <= s <= 64 -> 1 <= c < 64 ->
+Lemma ns_u64_safe_cut_spec n s c : ok_u64 n -> 0 <= s <= 64 -> legal_safe c -> 0 < s \/ c < 64 ->
   ns_u64_safe_cut (mk_ns_u64 n s) c = Some (field 64 n s (Z.min c (64 - s)), mk_ns_u64 n (s + Z.min c (64 - s))).
 Proof.
-  intros Hn Hs Hc. unfold ns_u64_safe_cut, ns_u64_eos, ns_u64_rest_count. cbn [ns_u64_number_ ns_u64_shift_ obind].
-  change (umul u64 8 8) with 64. unfold c_ge, c_lt.
+  unfold legal_safe. intros Hn Hs Hc Hfw. unfold ns_u64_safe_cut, ns_u64_eos, ns_u64_rest_count. cbn [ns_u64_number_ ns_u64_shift_ obind].
+  change (umul u64 8 8) with 64. unfold c_ge, c_lt, c_eq.
   destruct (Z.leb_spec 64 s).
   - replace (Z.min c (64 - s)) with 0 by lia. rewrite field_0, Z.add_0_r. reflexivity.
   - unfold usub. cbn [ibits u64]. assert (H64 : 64 < 2 ^ 64) by reflexivity. assert (H32 : 64 < 2 ^ 32) by reflexivity.
     rewrite (Z.mod_small (64 - s)) by lia. rewrite cast_u32, Z.mod_small by lia.
     destruct (Z.ltb_spec (64 - s) c); cbn [obind].
     + replace (Z.min c (64 - s)) with (64 - s) by lia.
+      replace (64 - s =? 64) with false by (symmetry; apply Z.eqb_neq; lia).
       replace (to_bool (64 - s)) with true by (symmetry; apply to_bool_spec; lia).
       rewrite ns_u64_cut_spec by (auto; lia). cbn [obind ns_u64_number_ ns_u64_shift_].  reflexivity.
     + replace (Z.min c (64 - s)) with c by lia.
+      replace (c =? 64) with false by (symmetry; apply Z.eqb_neq; lia).
       replace (to_bool c) with true by (symmetry; apply to_bool_spec; lia).
       rewrite ns_u64_cut_spec by (auto; lia). cbn [obind ns_u64_number_ ns_u64_shift_].  reflexivity.
 Qed.
+
+(** commit 096bd5f: when all the bits of a fresh splitter are requested, safe_cut returns the number itself and
+    reaches end-of-stream (before the fix this called cut(width): a shift by the full width, undefined) *)
+Lemma ns_u64_safe_cut_full n c : ok_u64 n -> legal_safe c -> 64 <= c ->
+  ns_u64_safe_cut (mk_ns_u64 n 0) c = Some (n, mk_ns_u64 n 64).
+Proof.
+  unfold legal_safe. intros Hn Hc Hw. unfold ns_u64_safe_cut, ns_u64_eos, ns_u64_rest_count. cbn [ns_u64_number_ ns_u64_shift_ obind].
+  change (umul u64 8 8) with 64. unfold c_ge, c_lt, c_eq. change (64 <=? 0) with false. cbv iota.
+  change (cast u32 (usub u64 64 0)) with 64.
+  destruct (Z.ltb_spec 64 c); cbn [obind]; [reflexivity|].
+  assert (c = 64) by lia. subst c. reflexivity.
+Qed.
+
+Lemma ns_u64_eos_at_end n : ns_u64_eos (mk_ns_u64 n 64) = Some true.
+Proof. reflexivity. Qed.
 
 Theorem ns_u64_cut_sequence n cs : ok_u64 n -> Forall (legal 64) cs -> zsum cs = 64 ->
   exists vs, run (ns_u64) ns_u64_cut (mk_ns_u64 n 0) cs = Some (vs, mk_ns_u64 n 64) /\ length vs = length cs /\
@@ -323,12 +447,16 @@ Proof.
   intros n0 s c Hn0 _ Hs0 Hc Hsc. apply ns_u64_cut_spec; auto.
 Qed.
 
-Theorem ns_u64_safe_cut_sequence n cs : ok_u64 n -> Forall (legal 64) cs -> 64 <= zsum cs ->
+Theorem ns_u64_safe_cut_sequence n cs : ok_u64 n -> Forall legal_safe cs -> 64 <= zsum cs ->
   exists vs, run (ns_u64) ns_u64_safe_cut (mk_ns_u64 n 0) cs = Some (vs, mk_ns_u64 n 64) /\ length vs = length cs /\
              joinf (combine vs (clip 64 0 cs)) = n mod 2 ^ 64.
 Proof.
-  intros Hn Hl Hs. apply (safe_cut_sequence_reconstructs_gen ns_u64 64 mk_ns_u64 ok_u64 (legal 64) anypos ns_u64_safe_cut); auto; try exact I; unfold legal; try lia.
-  intros n0 s c Hn0 _ Hs0 Hc. apply ns_u64_safe_cut_spec; auto.
+  intros Hn Hl Hs.
+  destruct (safe_cut_sequence_reconstructs_gen ns_u64 64 mk_ns_u64 ok_u64 anypos ns_u64_safe_cut ltac:(lia) legal_safe (fun n => n))
+    with (n := n) (cs := cs) as [vs [E [L J]]]; auto; try exact I; unfold legal_safe; try lia.
+  - intros n0 s c Hn0 _ Hs0 Hc Hfw. apply ns_u64_safe_cut_spec; auto.
+  - intros n0 c Hn0 _ Hc Hw. apply ns_u64_safe_cut_full; auto.
+  - exists vs. split; [exact E|]. split; [exact L|]. destruct J as [J|J]; rewrite J; [reflexivity|]. unfold ok_u64 in Hn. symmetry. apply Z.mod_small. lia.
 Qed.
 
 Definition ok_i64ll (n : Z) : Prop := - 2 ^ 63 <= n < 2 ^ 63.
@@ -342,23 +470,40 @@ Proof.
   rewrite (cast_small i64) by (cbn [ibits i64]; try lia; apply (field_small 64 n s c 64); lia). reflexivity.
 Qed.
 
-Lemma ns_i64ll_safe_cut_spec n s c : ok_i64ll n -> 0 <= s <= 64 -> 1 <= c < 64 ->
+Lemma ns_i64ll_safe_cut_spec n s c : ok_i64ll n -> 0 <= s <= 64 -> legal_safe c -> 0 < s \/ c < 64 ->
   ns_i64ll_safe_cut (mk_ns_i64ll n s) c = Some (field 64 n s (Z.min c (64 - s)), mk_ns_i64ll n (s + Z.min c (64 - s))).
 Proof.
-  intros Hn Hs Hc. unfold ns_i64ll_safe_cut, ns_i64ll_eos, ns_i64ll_rest_count. cbn [ns_i64ll_number_ ns_i64ll_shift_ obind].
-  change (umul u64 8 8) with 64. unfold c_ge, c_lt.
+  unfold legal_safe. intros Hn Hs Hc Hfw. unfold ns_i64ll_safe_cut, ns_i64ll_eos, ns_i64ll_rest_count. cbn [ns_i64ll_number_ ns_i64ll_shift_ obind].
+  change (umul u64 8 8) with 64. unfold c_ge, c_lt, c_eq.
   destruct (Z.leb_spec 64 s).
   - replace (Z.min c (64 - s)) with 0 by lia. rewrite field_0, Z.add_0_r. reflexivity.
   - unfold usub. cbn [ibits u64]. assert (H64 : 64 < 2 ^ 64) by reflexivity. assert (H32 : 64 < 2 ^ 32) by reflexivity.
     rewrite (Z.mod_small (64 - s)) by lia. rewrite cast_u32, Z.mod_small by lia.
     destruct (Z.ltb_spec (64 - s) c); cbn [obind].
     + replace (Z.min c (64 - s)) with (64 - s) by lia.
+      replace (64 - s =? 64) with false by (symmetry; apply Z.eqb_neq; lia).
       replace (to_bool (64 - s)) with true by (symmetry; apply to_bool_spec; lia).
       rewrite ns_i64ll_cut_spec by (auto; lia). cbn [obind ns_i64ll_number_ ns_i64ll_shift_].  reflexivity.
     + replace (Z.min c (64 - s)) with c by lia.
+      replace (c =? 64) with false by (symmetry; apply Z.eqb_neq; lia).
       replace (to_bool c) with true by (symmetry; apply to_bool_spec; lia).
       rewrite ns_i64ll_cut_spec by (auto; lia). cbn [obind ns_i64ll_number_ ns_i64ll_shift_].  reflexivity.
 Qed.
+
+(** commit 096bd5f: when all the bits of a fresh splitter are requested, safe_cut returns the number itself and
+    reaches end-of-stream (before the fix this called cut(width): a shift by the full width, undefined) *)
+Lemma ns_i64ll_safe_cut_full n c : ok_i64ll n -> legal_safe c -> 64 <= c ->
+  ns_i64ll_safe_cut (mk_ns_i64ll n 0) c = Some (n, mk_ns_i64ll n 64).
+Proof.
+  unfold legal_safe. intros Hn Hc Hw. unfold ns_i64ll_safe_cut, ns_i64ll_eos, ns_i64ll_rest_count. cbn [ns_i64ll_number_ ns_i64ll_shift_ obind].
+  change (umul u64 8 8) with 64. unfold c_ge, c_lt, c_eq. change (64 <=? 0) with false. cbv iota.
+  change (cast u32 (usub u64 64 0)) with 64.
+  destruct (Z.ltb_spec 64 c); cbn [obind]; [reflexivity|].
+  assert (c = 64) by lia. subst c. reflexivity.
+Qed.
+
+Lemma ns_i64ll_eos_at_end n : ns_i64ll_eos (mk_ns_i64ll n 64) = Some true.
+Proof. reflexivity. Qed.
 
 Theorem ns_i64ll_cut_sequence n cs : ok_i64ll n -> Forall (legal 64) cs -> zsum cs = 64 ->
   exists vs, run (ns_i64ll) ns_i64ll_cut (mk_ns_i64ll n 0) cs = Some (vs, mk_ns_i64ll n 64) /\ length vs = length cs /\
@@ -368,12 +513,16 @@ Proof.
   intros n0 s c Hn0 _ Hs0 Hc Hsc. apply ns_i64ll_cut_spec; auto.
 Qed.
 
-Theorem ns_i64ll_safe_cut_sequence n cs : ok_i64ll n -> Forall (legal 64) cs -> 64 <= zsum cs ->
+Theorem ns_i64ll_safe_cut_sequence n cs : ok_i64ll n -> Forall legal_safe cs -> 64 <= zsum cs ->
   exists vs, run (ns_i64ll) ns_i64ll_safe_cut (mk_ns_i64ll n 0) cs = Some (vs, mk_ns_i64ll n 64) /\ length vs = length cs /\
-             joinf (combine vs (clip 64 0 cs)) = n mod 2 ^ 64.
+             joinf (combine vs (clip 64 0 cs)) mod 2 ^ 64 = n mod 2 ^ 64.
 Proof.
-  intros Hn Hl Hs. apply (safe_cut_sequence_reconstructs_gen ns_i64ll 64 mk_ns_i64ll ok_i64ll (legal 64) anypos ns_i64ll_safe_cut); auto; try exact I; unfold legal; try lia.
-  intros n0 s c Hn0 _ Hs0 Hc. apply ns_i64ll_safe_cut_spec; auto.
+  intros Hn Hl Hs.
+  destruct (safe_cut_sequence_reconstructs_gen ns_i64ll 64 mk_ns_i64ll ok_i64ll anypos ns_i64ll_safe_cut ltac:(lia) legal_safe (fun n => n))
+    with (n := n) (cs := cs) as [vs [E [L J]]]; auto; try exact I; unfold legal_safe; try lia.
+  - intros n0 s c Hn0 _ Hs0 Hc Hfw. apply ns_i64ll_safe_cut_spec; auto.
+  - intros n0 c Hn0 _ Hc Hw. apply ns_i64ll_safe_cut_full; auto.
+  - exists vs. split; [exact E|]. split; [exact L|]. destruct J as [J|J]; rewrite J; [apply Z.mod_mod; lia|reflexivity].
 Qed.
 
 Definition ok_u64ll (n : Z) : Prop := 0 <= n < 2 ^ 64.
@@ -386,23 +535,40 @@ Proof.
   rewrite (field_of_shiftr 64) by lia. reflexivity.
 Qed.
 
-Lemma ns_u64ll_safe_cut_spec n s c : ok_u64ll n -> 0 <= s <= 64 -> 1 <= c < 64 ->
+Lemma ns_u64ll_safe_cut_spec n s c : ok_u64ll n -> 0 <= s <= 64 -> legal_safe c -> 0 < s \/ c < 64 ->
   ns_u64ll_safe_cut (mk_ns_u64ll n s) c = Some (field 64 n s (Z.min c (64 - s)), mk_ns_u64ll n (s + Z.min c (64 - s))).
 Proof.
-  intros Hn Hs Hc. unfold ns_u64ll_safe_cut, ns_u64ll_eos, ns_u64ll_rest_count. cbn [ns_u64ll_number_ ns_u64ll_shift_ obind].
-  change (umul u64 8 8) with 64. unfold c_ge, c_lt.
+  unfold legal_safe. intros Hn Hs Hc Hfw. unfold ns_u64ll_safe_cut, ns_u64ll_eos, ns_u64ll_rest_count. cbn [ns_u64ll_number_ ns_u64ll_shift_ obind].
+  change (umul u64 8 8) with 64. unfold c_ge, c_lt, c_eq.
   destruct (Z.leb_spec 64 s).
   - replace (Z.min c (64 - s)) with 0 by lia. rewrite field_0, Z.add_0_r. reflexivity.
   - unfold usub. cbn [ibits u64]. assert (H64 : 64 < 2 ^ 64) by reflexivity. assert (H32 : 64 < 2 ^ 32) by reflexivity.
     rewrite (Z.mod_small (64 - s)) by lia. rewrite cast_u32, Z.mod_small by lia.
     destruct (Z.ltb_spec (64 - s) c); cbn [obind].
     + replace (Z.min c (64 - s)) with (64 - s) by lia.
+      replace (64 - s =? 64) with false by (symmetry; apply Z.eqb_neq; lia).
       replace (to_bool (64 - s)) with true by (symmetry; apply to_bool_spec; lia).
       rewrite ns_u64ll_cut_spec by (auto; lia). cbn [obind ns_u64ll_number_ ns_u64ll_shift_].  reflexivity.
     + replace (Z.min c (64 - s)) with c by lia.
+      replace (c =? 64) with false by (symmetry; apply Z.eqb_neq; lia).
       replace (to_bool c) with true by (symmetry; apply to_bool_spec; lia).
       rewrite ns_u64ll_cut_spec by (auto; lia). cbn [obind ns_u64ll_number_ ns_u64ll_shift_].  reflexivity.
 Qed.
+
+(** commit 096bd5f: when all the bits of a fresh splitter are requested, safe_cut returns the number itself and
+    reaches end-of-stream (before the fix this called cut(width): a shift by the full width, undefined) *)
+Lemma ns_u64ll_safe_cut_full n c : ok_u64ll n -> legal_safe c -> 64 <= c ->
+  ns_u64ll_safe_cut (mk_ns_u64ll n 0) c = Some (n, mk_ns_u64ll n 64).
+Proof.
+  unfold legal_safe. intros Hn Hc Hw. unfold ns_u64ll_safe_cut, ns_u64ll_eos, ns_u64ll_rest_count. cbn [ns_u64ll_number_ ns_u64ll_shift_ obind].
+  change (umul u64 8 8) with 64. unfold c_ge, c_lt, c_eq. change (64 <=? 0) with false. cbv iota.
+  change (cast u32 (usub u64 64 0)) with 64.
+  destruct (Z.ltb_spec 64 c); cbn [obind]; [reflexivity|].
+  assert (c = 64) by lia. subst c. reflexivity.
+Qed.
+
+Lemma ns_u64ll_eos_at_end n : ns_u64ll_eos (mk_ns_u64ll n 64) = Some true.
+Proof. reflexivity. Qed.
 
 Theorem ns_u64ll_cut_sequence n cs : ok_u64ll n -> Forall (legal 64) cs -> zsum cs = 64 ->
   exists vs, run (ns_u64ll) ns_u64ll_cut (mk_ns_u64ll n 0) cs = Some (vs, mk_ns_u64ll n 64) /\ length vs = length cs /\
@@ -412,23 +578,15 @@ Proof.
   intros n0 s c Hn0 _ Hs0 Hc Hsc. apply ns_u64ll_cut_spec; auto.
 Qed.
 
-Theorem ns_u64ll_safe_cut_sequence n cs : ok_u64ll n -> Forall (legal 64) cs -> 64 <= zsum cs ->
+Theorem ns_u64ll_safe_cut_sequence n cs : ok_u64ll n -> Forall legal_safe cs -> 64 <= zsum cs ->
   exists vs, run (ns_u64ll) ns_u64ll_safe_cut (mk_ns_u64ll n 0) cs = Some (vs, mk_ns_u64ll n 64) /\ length vs = length cs /\
              joinf (combine vs (clip 64 0 cs)) = n mod 2 ^ 64.
 Proof.
-  intros Hn Hl Hs. apply (safe_cut_sequence_reconstructs_gen ns_u64ll 64 mk_ns_u64ll ok_u64ll (legal 64) anypos ns_u64ll_safe_cut); auto; try exact I; unfold legal; try lia.
-  intros n0 s c Hn0 _ Hs0 Hc. apply ns_u64ll_safe_cut_spec; auto.
+  intros Hn Hl Hs.
+  destruct (safe_cut_sequence_reconstructs_gen ns_u64ll 64 mk_ns_u64ll ok_u64ll anypos ns_u64ll_safe_cut ltac:(lia) legal_safe (fun n => n))
+    with (n := n) (cs := cs) as [vs [E [L J]]]; auto; try exact I; unfold legal_safe; try lia.
+  - intros n0 s c Hn0 _ Hs0 Hc Hfw. apply ns_u64ll_safe_cut_spec; auto.
+  - intros n0 c Hn0 _ Hc Hw. apply ns_u64ll_safe_cut_full; auto.
+  - exists vs. split; [exact E|]. split; [exact L|]. destruct J as [J|J]; rewrite J; [reflexivity|]. unfold ok_u64ll in Hn. symmetry. apply Z.mod_small. lia.
 Qed.
 
-(** ** Inputs the code does not reject: [safe_cut(count)] with [count >= width] on a fresh 32/64-bit splitter
-    calls [cut(width)], which shifts a one of the number's width by that width: undefined behaviour.
-    ([is_correct(count)] is [count < width]; for the 16-bit types the mask is computed in [int] and the call is
-    defined.)  On x86 the shift count wraps and the call returns 0 instead of the number. *)
-Lemma ns_u32_safe_cut_full_width_ub n : ns_u32_safe_cut (mk_ns_u32 n 0) 32 = None.
-Proof. reflexivity. Qed.
-Lemma ns_i32_safe_cut_full_width_ub n : ns_i32_safe_cut (mk_ns_i32 n 0) 32 = None.
-Proof. reflexivity. Qed.
-Lemma ns_u64_safe_cut_full_width_ub n : ns_u64_safe_cut (mk_ns_u64 n 0) 64 = None.
-Proof. reflexivity. Qed.
-Lemma ns_i64_safe_cut_full_width_ub n : ns_i64_safe_cut (mk_ns_i64 n 0) 64 = None.
-Proof. reflexivity. Qed.
